@@ -15,7 +15,7 @@ N4(n) == <<n % 65536, n \div 65536, 0, 0>>
 Letter(e) ==
     LET lt == e.letter IN
     [op |-> e.op, q |-> e.q,
-     n |-> IF e.op \in {"set_vring_num", "set_vring_base"} THEN lt.n[1] ELSE 0,
+     n |-> IF e.op \in {"set_vring_num", "set_vring_base"} \/ (e.op = "set_vring_addr" /\ "n" \in DOMAIN lt) THEN lt.n[1] ELSE 0,
      bits |-> IF "bits" \in DOMAIN lt THEN ToSet(lt.bits) ELSE {},
      fd |-> IF "fd" \in DOMAIN lt THEN lt.fd ELSE "",
      usedIdx |-> IF "used_idx" \in DOMAIN lt THEN lt.used_idx ELSE 0]
